@@ -141,6 +141,15 @@ def _make(kind, name, seed, scen):
         y[:scen["nlab"]] = np.arange(scen["nlab"]) % 2
         Xt = np.vstack([X, X.mean(axis=0, keepdims=True)])
         clf = CLFS[name](seed)
+        if scen.get("sampler") is not None:
+            # a classifier fitted ONCE and asked several times for probability vectors sampled with an explicit seed
+            # (0 is a seed like any other): every answer must be the same, on this object and on its twin
+            fitted = clf.fit(X, y)
+
+            def call(h):
+                return [1, 0], ab.digest([np.asarray(fitted.sample_proba(Xt, n_samples=2, random_state=scen["sampler"]),
+                                                     dtype=float)])
+            return call
 
         def call(h):
             c = clf.fit(X, y) if not name.startswith("Annotator") else clf.fit(X, np.tile(y[:, None], (1, 2)))
@@ -178,6 +187,10 @@ def _clfs():
         "ParzenWindowClassifier": lambda s: ParzenWindowClassifier(classes=[0, 1], random_state=s),
         "ParzenWindowClassifier(cost)": lambda s: ParzenWindowClassifier(classes=[0, 1], random_state=s,
                                                                         cost_matrix=1 - np.eye(2)),
+        "ParzenWindowClassifier(class_prior=1)": lambda s: ParzenWindowClassifier(classes=[0, 1], class_prior=1.0,
+                                                                                 random_state=s),
+        "MixtureModelClassifier(class_prior=1)": lambda s: MixtureModelClassifier(classes=[0, 1], class_prior=1.0,
+                                                                                 random_state=s),
         "MixtureModelClassifier": lambda s: MixtureModelClassifier(classes=[0, 1], random_state=s),
         "MixtureModelClassifier(bgm)": lambda s: MixtureModelClassifier(
             mixture_model=BayesianGaussianMixture(n_components=2, random_state=s), classes=[0, 1], random_state=s),
@@ -279,6 +292,10 @@ def main(tier="quick", seed=0):
     for name in sorted(CLFS):
         for n_ in range(reps):
             subjects.append((("clf", name), {"dseed": int(rng.integers(1000)), "geom": geoms[n_ % 3], "nlab": [0, 1, 4][n_ % 3]}))
+    for name in ("ParzenWindowClassifier(class_prior=1)", "MixtureModelClassifier(class_prior=1)"):
+        for n_ in range(reps):
+            subjects.append((("clf", name), {"dseed": int(rng.integers(1000)), "geom": geoms[n_ % 3],
+                                             "nlab": [0, 1, 4][n_ % 3], "sampler": [0, 3][n_ % 2]}))
     for name in sorted(REGS):
         for n_ in range(reps):
             subjects.append((("reg", name), {"dseed": int(rng.integers(1000)), "geom": geoms[n_ % 3], "nlab": [1, 2, 4][n_ % 3]}))
